@@ -130,6 +130,8 @@ RECIPES = {
         level="model_checking",
         monitors={"C02"},
         mc=[MC_CRASH, MC_CRASH_SIM],
+        prechecks=[dict(cmd="sigkill", gen="small:4,gc-heavy:2,aim-roll:2,aim-span:1,restarts:2", policy="always_flush,do_nothing",
+                        opts={"max-points": "40"}, thorough_factor=6)],
         runs=[dict(cmd="run", gen="small:24,gc-heavy:8,batch:8,big:3,restarts:6,aim-gc:8,aim-roll:6,aim-batch:4,aim-block:4,aim-pin:10,aim-span:6", policy="always_flush",
                    opts={"crash": "process", "tears": "aimed", "cont": True, "depth2": True, "max-points": "600"},
                    opts_thorough={"crash": "process", "tears": "all", "cont": True, "depth2": True, "max-points": "6000"},
